@@ -30,6 +30,8 @@ import Gozod.Gen.Cert_guid
 import Gozod.Gen.Cert_cidrv4
 import Gozod.Gen.Cert_isodate
 import Gozod.Gen.Cert_isodatetime_optsec
+import Gozod.Gen.Cert_isodatetime_partial
+import Gozod.Gen.Cert_base64url_partial
 namespace Gozod.C20
 open Gozod Gozod.Re
 
@@ -162,5 +164,54 @@ theorem c20_isodate_pattern : ∀ s, accepts Gen.pat_isodate s = Fmt.isoDate.run
 example : Fmt.isoDate.run (b! "2024-02-29") = true ∧ Fmt.isoDate.run (b! "2023-02-29") = false ∧
     Fmt.isoDate.run (b! "1900-02-29") = false ∧ Fmt.isoDate.run (b! "2000-02-29") = true ∧
     Fmt.isoDate.run (b! "2024-04-31") = false ∧ Fmt.isoDate.run (b! "2024-12-06\n") = false := by decide
+
+/-! ## ISO date-time: the exported pattern is RFC 3339 except that it lets the seconds be omitted
+
+  `Fmt.isoDateTimeQ` keeps the year modulo 400 while reading it (`isoDate_quot` shows for the date
+  part that this does not change the accepted strings). -/
+
+/-- the full statement for the exported date-time pattern; false on the pinned tree -/
+def c20_isodatetime_pattern_full : Prop :=
+  ∀ s, accepts Gen.pat_isodatetime s = (Fmt.isoDateTimeQ false).run s
+
+/-- what the pattern is: RFC 3339 with optional seconds -/
+theorem c20_isodatetime_pattern_optsec : ∀ s, accepts Gen.pat_isodatetime s = (Fmt.isoDateTimeQ true).run s :=
+  bisim_sound_full _ _ Gen.cert_isodatetime_optsec_ok
+
+/-- outside the date-times written without seconds the pattern is exactly RFC 3339 -/
+theorem c20_isodatetime_pattern_partial :
+    ∀ s, Fmt.isoDateTimeNoSecQ.run s = false → accepts Gen.pat_isodatetime s = (Fmt.isoDateTimeQ false).run s :=
+  bisim_sound _ _ Gen.cert_isodatetime_partial_ok
+
+theorem c20_isodatetime_pattern_witness : ¬ c20_isodatetime_pattern_full := fun h =>
+  absurd (h (b! "2024-12-06T15:30Z")) (by decide +kernel)
+
+example : Fmt.isoDateTimeNoSecQ.run (b! "2024-12-06T15:30:00.5+08:00") = false ∧
+    (Fmt.isoDateTimeQ false).run (b! "2024-12-06T15:30:00.5+08:00") = true ∧
+    Fmt.isoDateTimeNoSecQ.run (b! "2024-12-06T15:30Z") = true ∧
+    (Fmt.isoDateTimeQ false).run (b! "2024-12-06T15:30:00,5Z") = false ∧
+    (Fmt.isoDateTimeQ false).run (b! "2024-12-06T1:30:00Z") = false ∧
+    (Fmt.isoDateTimeQ false).run (b! "2023-02-29T00:00:00Z") = false := by decide +kernel
+
+/-- the validator at the pinned commit (time.Parse alone) is not RFC 3339 either -/
+theorem c20_isodatetime_goparse_witness :
+    Parsers.goRFC3339 (b! "2024-12-06T15:30:00,5Z") = true ∧ Parsers.goRFC3339 (b! "2024-12-06T1:30:00Z") = true ∧
+    Parsers.goRFC3339 (b! "2024-12-06T15:30:00+24:00") = true := by decide +kernel
+
+/-! ## Base64URL: the exported pattern checks the alphabet only -/
+
+def c20_base64url_pattern_full : Prop := ∀ s, accepts Gen.pat_base64url s = Fmt.base64url.run s
+
+/-- outside the strings whose length breaks the RFC 4648 rule the pattern is exactly base64url -/
+theorem c20_base64url_pattern_partial :
+    ∀ s, Fmt.base64urlBadLen.run s = false → accepts Gen.pat_base64url s = Fmt.base64url.run s :=
+  bisim_sound _ _ Gen.cert_base64url_partial_ok
+
+theorem c20_base64url_pattern_witness : ¬ c20_base64url_pattern_full := fun h =>
+  absurd (h (b! "A=")) (by decide +kernel)
+
+example : Fmt.base64urlBadLen.run (b! "QUJDRA") = false ∧ Fmt.base64url.run (b! "QUJDRA") = true ∧
+    Fmt.base64urlBadLen.run (b! "A") = true ∧ Fmt.base64urlBadLen.run (b! "QUI=") = false ∧
+    Fmt.base64url.run (b! "QUI=") = true := by decide +kernel
 
 end Gozod.C20
